@@ -282,6 +282,12 @@ def step(W, name, args, rec, judge, ctx, wit, before_vars):
             face.c[tuple(slice(0, 1) for _ in face.c.shape)] = 20.0 + x
         elif how == "utility":
             face.newtonCooling(1.0, 3.0, 30.0 + x)
+        elif how == "aonly":
+            face.a = 1.25 + x / 1000.0
+        elif how == "bonly":
+            face.b = 0.77 + x / 1000.0
+        elif how == "conly":
+            face.c = 40.0 + x
         else:
             face.periodic = not face.periodic
     elif name == "AssignValue":
